@@ -367,6 +367,25 @@ VARIANTS = [
     {"name": "P4 literal pieces rendered by repr in a list comprehension", "file": HELPERS, "expect": "silent",
      "old": "        reprs = \"\\n\".join(repr(x) for x in split)\n",
      "new": "        reprs = \"\\n\".join([repr(piece) for piece in split])\n"},
+    # ------------------------------------------------------------------ round 8
+    {"name": "R14 U8 variables unpacked through bool()", "file": "hippolyzer/lib/base/message/data_packer.py", "expect": "C11.R14",
+     "edits": [{"file": "hippolyzer/lib/base/message/data_packer.py", "old": "def _make_tuplecoord_spec(",
+                "new": "def _make_flag_spec(struct_fmt: str) -> SPEC:\n    struct_obj = struct.Struct(struct_fmt)\n"
+                       "    return (lambda raw: bool(struct_obj.unpack(raw)[0])), struct_obj.pack\n\n\ndef _make_tuplecoord_spec("},
+               {"file": "hippolyzer/lib/base/message/data_packer.py", "old": "        MsgType.MVT_BOOL: _make_struct_spec('B'),\n",
+                "new": "        MsgType.MVT_BOOL: _make_flag_spec('B'),\n"}]},
+    {"name": "P14 BOOL row through its own factory without narrowing", "expect": "silent",
+     "edits": [{"file": "hippolyzer/lib/base/message/data_packer.py", "old": "def _make_tuplecoord_spec(",
+                "new": "def _make_flag_spec(struct_fmt: str) -> SPEC:\n    struct_obj = struct.Struct(struct_fmt)\n"
+                       "    return (lambda raw: struct_obj.unpack(raw)[0]), struct_obj.pack\n\n\ndef _make_tuplecoord_spec("},
+               {"file": "hippolyzer/lib/base/message/data_packer.py", "old": "        MsgType.MVT_BOOL: _make_struct_spec('B'),\n",
+                "new": "        MsgType.MVT_BOOL: _make_flag_spec('B'),\n"}]},
+    {"name": "R15 face bitfield reader keeps only the low 32 faces", "file": TEMPLATES, "expect": "C11.R15",
+     "old": "        # Bitfield of faces reconstructed, convert to tuple\n        i = 0\n",
+     "new": "        # Bitfield of faces reconstructed, convert to tuple\n        val &= 0xFFFFFFF\n        i = 0\n"},
+    {"name": "P15 face bitfield reader accumulates in one expression", "file": TEMPLATES, "expect": "silent",
+     "old": "            have_next = char & 0x80\n            val |= char & 0x7F\n            if have_next:\n                val <<= 7\n",
+     "new": "            have_next = bool(char & 0x80)\n            val = val | (char & 0x7F)\n            if have_next:\n                val = val << 7\n"},
     # ------------------------------------------------------------------ documented limits
     {"name": "X wrap width changed (line-wrapping details are value level)", "file": FMT, "expect": "miss",
      "old": "HippoPrettyPrinter(width=100)", "new": "HippoPrettyPrinter(width=40)"},
